@@ -54,12 +54,12 @@ func (lossy) Runs(tier string) int64 {
 
 func (lossy) Meta() core.EngineMeta {
 	return core.EngineMeta{
-		Rule:       "Reference-multiplexed streams (as C02; some with PES payloads made of PES-start-code patterns at packet strides) go through the PacketChannel. A quarter of the runs are header sequences: seeded packet sequences over {PID, counter step in dup/+1/gap, PUSI, payload / adaptation-only / transport-error / discontinuity_indicator} with uniquely tagged payloads, judged against the spec-level reassembly reference (DESIGN App. B: must-deliver / may-be-missing / must-not-appear). Of the rest, even run indices enumerate EVERY single-packet duplication and EVERY single-packet deletion position of their stream (exhaustive per stream); odd indices apply a seeded multi-fault plan (loss bursts < 16 per PID, duplicates of first/middle/last packets, duplicates delayed behind other PIDs' packets, dup+loss). The fault-free run of the same stream is the baseline. evaluations = faulted executions; distinct = abstract fingerprint (fault kind, unit kind, position class first/middle/last/single, packets-per-unit class, cc-wrap, interleaved, outcome class); non-trivial = the fault hit a packet of a unit (always).",
+		Rule:       "Reference-multiplexed streams (as C02; some with PES payloads made of PES-start-code patterns at packet strides) go through the PacketChannel. A quarter of the runs are header sequences: seeded packet sequences over {PID, counter step in dup/+1/gap, PUSI, payload / adaptation-only / transport-error / discontinuity_indicator} with uniquely tagged payloads, judged against the spec-level reassembly reference (DESIGN App. B: must-deliver / may-be-missing / must-not-appear). Of the rest, even run indices enumerate EVERY single-packet duplication and EVERY single-packet deletion position of their stream (exhaustive per stream); odd indices apply a seeded multi-fault plan (loss bursts < 16 per PID, duplicates of first/middle/last packets, duplicates delayed behind other PIDs' packets, dup+loss). The fault-free run of the same stream is the baseline. evaluations = faulted executions; distinct = abstract fingerprint (fault kind, unit kind, position class first/middle/last/single, packets-per-unit class, cc-wrap, interleaved, outcome class); non-trivial = the fault hit a packet of a unit (always). A third of the streams carry PCRs on later packets of a unit too; duplicates may carry another PCR value than their original (the one difference ISO 13818-1 2.4.3.3 allows), and header-sequence packets (also those with discontinuity_indicator) may carry a PCR.",
 		Real:       []string{"astits.Demuxer and everything below it"},
 		Stub:       []string{"refts reference multiplexer", "PacketChannel (drop / duplicate)", "SimReader (fault-free)", "spec-level bookkeeping of which unit each packet belongs to"},
 		FaultKinds: []string{"muxer-source", "hdr-dup", "hdr-gap", "hdr-disc", "hdr-afonly", "hdr-tei", "hdr-orphan", "dup", "drop", "dup-delayed", "drop-burst", "dup-first", "dup-last", "dup-single-packet-unit", "drop-pusi", "biased-payload"},
 		Assumptions: []string{
-			"a duplicate is a byte-identical copy following the original before any other packet of its PID",
+			"a duplicate is a copy (byte-identical, or differing in its PCR value only) following the original before any other packet of its PID",
 			"losses: at most 14 consecutive packets of a PID (15 make the next counter equal the last one seen = a duplicate by definition) and at least one later payload packet of that PID survives (otherwise the counter cannot reveal the gap); PMT PIDs count as affected when PID 0 is",
 			"the baseline is the library's own fault-free output; runs whose baseline is not what the stream carries are left to C02",
 		},
